@@ -71,6 +71,7 @@ class Main {
       return;
     }
     Summary sum;
+    g.scenario_name = name;
     Explore(_mode, body, sum, _max, _seed + _count, _choices);
     ++_count;
     Emit(_out, name, _mode, sum);
